@@ -66,6 +66,8 @@ class Gen:
     def rule_ref(self):
         if self.r.chance(0.35):
             return self.r.choice(BUILTINS)
+        if self.r.chance(0.15):      # fully qualified rule names (also ones starting like a built-in)
+            return self.r.choice(["a.b", "component.types.List", "ID.foo", "ns.INT", "STRING.x.y", "x.1y"])
         return self.ident()
 
     def simple_match(self):
@@ -117,7 +119,7 @@ class Gen:
         return t + self.rrel_seq()
 
     def obj_ref(self):
-        t = ["[", self.r.choice(["B", "pkg.B", "Model", "x"])]
+        t = ["[", self.r.choice(["B", "pkg.B", "Model", "x", "ns.sub.B", "a.b.c.D"])]
         if self.r.chance(0.7):
             t += [":" if self.r.chance(0.8) else "|", self.rule_ref()]
             if self.r.chance(0.6):
